@@ -306,7 +306,14 @@ fn encode<'t, T>(
                             pattern
                         })
                         .collect();
-                    grouping.push_str(pattern, &encodings.join("|"));
+                    // An alternation without alternatives (only the `any` combinator over no
+                    // patterns builds one) matches nothing, not the empty path.
+                    if encodings.is_empty() {
+                        grouping.push_str(pattern, NEVER_EXPRESSION);
+                    }
+                    else {
+                        grouping.push_str(pattern, &encodings.join("|"));
+                    }
                 },
                 Concatenation(_) => unreachable!(),
                 Repetition(repetition) => {
